@@ -39,13 +39,32 @@ def arg_sdl(a):
     return s
 
 
+def dep_sdl(reason):
+    """reason markers of SchemaModel.tla: "" = none given, "<empty>" = the empty string, "<null>" = an explicit null"""
+    if reason == "":
+        return " @deprecated"
+    if reason == "<empty>":
+        return ' @deprecated(reason: "")'
+    if reason == "<null>":
+        return " @deprecated(reason: null)"
+    return " @deprecated(reason: %s)" % render.gql_string(reason)
+
+
+def expected_reason(reason, got):
+    """-> None when the introspected deprecationReason `got` is what the SDL declares, else a description"""
+    if reason == "":
+        return None if isinstance(got, str) and got else "a default reason text"
+    want = "" if reason == "<empty>" else (None if reason == "<null>" else reason)
+    return None if (got == want and type(got) is type(want)) else repr(want)
+
+
 def field_sdl(f):
     s = f["name"]
     if f["args"]:
         s += "(" + ", ".join(arg_sdl(a) for a in f["args"]) + ")"
     s += ": " + render.typeref(f["type"])
     if f["dep"]:
-        s += " @deprecated" + ("(reason: %s)" % render.gql_string(f["reason"]) if f["reason"] else "")
+        s += dep_sdl(f["reason"])
     if f["hidden"]:
         s += " @nonIntrospectable"
     return s
@@ -63,7 +82,7 @@ def piece_sdl(p):
         for v in p["values"]:
             s = v["name"]
             if v["dep"]:
-                s += " @deprecated" + ("(reason: %s)" % render.gql_string(v["reason"]) if v["reason"] else "")
+                s += dep_sdl(v["reason"])
             vals.append(s)
         return "%senum %s {\n  %s\n}" % (ext, p["name"], "\n  ".join(vals)) if vals or not p["ext"] else "%senum %s" % (ext, p["name"])
     if k == "INPUT":
